@@ -10,6 +10,10 @@ may be nested / unsorted, sums unsimplified, fractions compound).
                                   order) - the relation `Present` of C11
     shrink_expr(e)                smaller candidates for shrinking
     rand_ordering(rng, e, ...)    an ordering (list of encoded vars) covering / not covering the expression
+    well_scoped_mw(e)             the WIDENED quantifier `WellScopedW` of Lean (Y0/Lemmas/SemScopeW.lean): leaves may be
+                                  multi-world joints, several children may share a base variable
+    mw_leaf / struct_mw_sum /     multi-world joint leaves (same base in several worlds / with several value marks) and
+    struct_mw_expr                Sums over them in every relation between the ranges and the duplicated / single bases
 
 Reused by the print / id / cf families: keep the encoding the one of enc_expr.py.
 """
@@ -1106,3 +1110,408 @@ def struct_ranges(rng: random.Random, e, n_names):
             others = [m for m in range(n_names) if m != n]
             out.append(cfv(n, [[rng.choice(others), "m"]]) if others else plain(n))
     return out, mode
+
+
+# --------------------------------------------------------------------------------------------- multi-world joints
+#
+# The generators above keep every WellScoped leaf inside ONE world with pairwise distinct names, so `Sum.simplify` never
+# met two children with the same base variable (its own FIXME).  The functions below are NEW streams (the distribution of
+# the existing generators is unchanged): leaves that are multi-world joints - ordinary y0 objects, the inputs and outputs
+# of ID* / ctfTR - whose children may share a base variable in different worlds or with different value marks.
+
+def leaf_ok_mw(t, S):
+    """the leaf clause of `WellScopedW` relative to the set S of names bound by Sums of the whole expression:
+    at least one child; a subscript `-X` (unstarred) never names a variable of the leaf that is bound by a Sum (the Sum
+    would bind the subscript together with the event value); no `+X` event value with X bound by a Sum.
+    Nothing is required of the worlds or of the names: children may share a base variable, may even repeat."""
+    c, p = _leaf_parts(t)
+    vs = list(c) + list(p)
+    if not c:
+        return False
+    names = {int(v[1]) for v in vs}
+    for w in vs:
+        for a, b in w[4]:
+            if int(a) in names and b != "p" and int(a) in S:
+                return False
+    return not any(v[2] == "p" and int(v[1]) in S for v in vs)
+
+
+def _wsw(e, S):
+    if not isinstance(e, list):
+        return e in ("one", "zero")
+    tag = e[0]
+    if tag in ("P", "PP"):
+        return leaf_ok_mw(e, S)
+    if tag == "Q":
+        return False
+    if tag == "prod":
+        return all(_wsw(x, S) for x in e[1:])
+    if tag == "frac":
+        return _wsw(e[1], S) and _wsw(e[2], S)
+    if tag == "sum":
+        rs = e[1]
+        if not rs or any(not (v[2] == "n" and str(v[3]) == "0" and not v[4]) for v in rs):
+            return False
+        if len({int(v[1]) for v in rs}) != len(rs):
+            return False
+        return _wsw(e[2], S)
+    return False
+
+
+def well_scoped_mw(e):
+    """same definition as `Y0.WellScopedW` (lean/Y0/Lemmas/SemScopeW.lean); `well_scoped(e)` implies it"""
+    return _wsw(e, range_names(e))
+
+
+def has_shared_base(e):
+    """some parent-less or conditional leaf has two children with the same base variable"""
+    for t in subterms(e):
+        if isinstance(t, list) and t[0] in ("P", "PP"):
+            names = [int(v[1]) for v in _leaf_parts(t)[0]]
+            if len(set(names)) < len(names):
+                return True
+    return False
+
+
+def is_multiworld(e):
+    """some leaf mentions two different intervention sets"""
+    for t in subterms(e):
+        if isinstance(t, list) and t[0] in ("P", "PP"):
+            c, p = _leaf_parts(t)
+            if len({tuple(map(tuple, v[4])) for v in list(c) + list(p)}) > 1:
+                return True
+    return False
+
+
+def mw_leaf(rng: random.Random, n_names=4, pop=None, n_dup=None, n_single=None, marks=("n", "n", "m"), dup_marks=None):
+    """(leaf, info): a parent-less joint leaf over several worlds.  `dup` base: 2-3 children with the SAME base variable
+    and pairwise different (world, mark); `single` bases: children whose base occurs once, each in a random world.
+    Subscript names are taken outside the event names of the leaf (so the leaf is in the widened quantifier whatever is
+    summed), except for an occasional `+`-subscript on an own name (allowed) and a rare `-`-subscript on an own name
+    (allowed only when that name is not bound by a Sum)."""
+    names = list(range(n_names))
+    rng.shuffle(names)
+    n_dup = rng.choice([2, 2, 2, 3]) if n_dup is None else n_dup
+    n_single = rng.choice([0, 1, 1, 2]) if n_single is None else n_single
+    n_single = min(n_single, max(0, n_names - 2))
+    a = names[0]
+    singles = names[1:1 + n_single]
+    sub = names[1 + n_single:] or [names[-1]]      # subscript names (if nothing is left: the last single, see below)
+    worlds = [[]]
+    for x in sub[:2]:
+        worlds += [[[x, "m"]], [[x, "p"]]]
+    if len(sub) >= 2:
+        worlds.append([[sub[0], "m"], [sub[1], "m"]])
+    worlds = [w for w in worlds if not ({i[0] for i in w} & ({a} | set(singles)))] or [[]]
+    combos = [(tuple(map(tuple, w)), m) for w in worlds for m in sorted(set(dup_marks or marks))]
+    rng.shuffle(combos)
+    dups = [cfv(a, [list(i) for i in w], m) for w, m in combos[:max(n_dup, 1)]]
+    others = [cfv(x, rng.choice(worlds), rng.choice(marks)) for x in singles]
+    k = rng.random()
+    if k < 0.12 and others:        # a `+`-subscript on an own name
+        tgt = rng.choice(dups)
+        tgt[4] = sorted(tgt[4] + [[singles[0], "p"]], key=lambda q: (q[0], q[1] == "p"))
+    elif k < 0.18 and others:      # a `-`-subscript on an own name: inside the class only when that name is not summed
+        tgt = rng.choice(dups)
+        tgt[4] = sorted(tgt[4] + [[singles[0], "m"]], key=lambda q: (q[0], q[1] == "p"))
+    children = dups + others
+    rng.shuffle(children)
+    seen, uniq = set(), []
+    for v in children:
+        key = (v[1], v[2], tuple(map(tuple, v[4])))
+        if key not in seen:
+            seen.add(key)
+            uniq.append(v)
+    leaf = mk_leaf(uniq, pop=pop)
+    return leaf, {"dup": a, "singles": singles, "fresh": [x for x in sub if x != a and x not in singles]}
+
+
+MW_MODES = ("dup", "single", "both", "all", "superset", "partial", "miss")
+
+
+def struct_mw_sum(rng: random.Random, n_names=4, mode=None, pop=None, wrap=None):
+    """(expression, label): Sum over a multi-world joint leaf.  Relation between the ranges and the children:
+    dup = exactly the duplicated base; single = one base that occurs once; both; all = every base; superset = every base
+    and a fresh name; partial = a single base and a fresh name; miss = fresh names only.  On the pinned code EVERY mode
+    rebuilt the leaf from the dict {base: child} and so dropped all but one child per base (miss included)."""
+    mode = mode or rng.choice(MW_MODES)
+    if pop is False:
+        pop = None
+    for _ in range(30):
+        need_single = mode in ("single", "both", "partial")
+        leaf, info = mw_leaf(rng, n_names, pop=pop, n_single=rng.choice([1, 1, 2]) if need_single else None,
+                             dup_marks=("n", "m", "p") if mode in ("single", "partial", "miss") else None)
+        a, singles, fresh = info["dup"], info["singles"], info["fresh"]
+        if need_single and not singles:
+            continue
+        if mode in ("superset", "partial", "miss") and not fresh:
+            fresh = [n_names]          # a name outside the pool
+        if mode == "dup":
+            r = [a]
+        elif mode == "single":
+            r = [rng.choice(singles)]
+        elif mode == "both":
+            r = [a, rng.choice(singles)]
+        elif mode == "all":
+            r = [a] + list(singles)
+        elif mode == "superset":
+            r = [a] + list(singles) + [fresh[0]]
+        elif mode == "partial":
+            r = [rng.choice(singles), fresh[0]]
+        else:
+            r = [fresh[0]]
+        body = leaf
+        h = rng.random()
+        if h < 0.12:
+            body = ["frac", leaf, "one"]
+        elif h < 0.24:
+            body = ["prod", "one", leaf]
+        elif h < 0.34:             # the leaf only appears after an inner marginalisation of a name outside the pool
+            z = n_names + 1
+            c, _p = _leaf_parts(leaf)
+            big = list(c) + [cfv(z)]
+            rng.shuffle(big)
+            body = ["sum", [plain(z)], mk_leaf(big, pop=pop)]
+        e = ["sum", [plain(n) for n in sorted(set(r))], body]
+        w = wrap or rng.choice(["none", "none", "prod", "num", "den", "sum", "pair"])
+        other = mk_leaf([rng.randrange(n_names)], pop=rng.choice([None, pop]))
+        if w == "prod":
+            e = ["prod", other, e]
+        elif w == "num":
+            e = ["frac", e, other]
+        elif w == "den":
+            e = ["frac", other, e]
+        elif w == "sum":
+            e = ["sum", [plain(n_names + 2)], ["prod", e, mk_leaf([n_names + 2], [rng.randrange(n_names)])]]
+        elif w == "pair":
+            e2, _ = struct_mw_sum(rng, n_names, wrap="none", pop=pop)
+            e = ["prod", e, e2]
+        if well_scoped_mw(e):
+            return e, f"mwsum:{mode}:{'PP' if pop else 'P'}"
+    return e, f"mwsum:{mode}:out"
+
+
+def struct_mw_expr(rng: random.Random, n_names=4):
+    """one structured expression around multi-world joints: a Sum over one (70%), a bare leaf / product / fraction of
+    such leaves (canonicalisation must only sort the children), or a single-base multi-world leaf under a Sum (every
+    child in its own world, all bases distinct: the marginalisation must still happen)"""
+    k = rng.random()
+    if k < 0.7:
+        return struct_mw_sum(rng, n_names, pop=rng.choice([None, None, POPS[0]]))
+    if k < 0.85:
+        l1, _ = mw_leaf(rng, n_names)
+        l2, _ = mw_leaf(rng, n_names)
+        e = rng.choice([l1, ["prod", l1, l2], ["frac", l1, l2], ["prod", l2, ["frac", l1, present_shuffle(rng, l1)]]])
+        return e, "mwleaf"
+    # distinct bases, different worlds
+    names = list(range(n_names))
+    rng.shuffle(names)
+    k2 = rng.choice([2, 2, 3]) if n_names >= 4 else 2
+    ch, rest = names[:k2], names[k2:] or [n_names]
+    worlds = [[], [[rest[0], "m"]], [[rest[0], "p"]]] + ([[[rest[-1], "m"]]] if len(rest) > 1 else [])
+    children = [cfv(x, rng.choice(worlds), rng.choice(["n", "n", "m"])) for x in ch]
+    r = rng.sample(ch, rng.randint(1, len(ch)))
+    if rng.random() < 0.3:
+        r.append(n_names + 1)
+    e = ["sum", [plain(n) for n in sorted(set(r))], mk_leaf(children, pop=rng.choice([None, None, POPS[0]]))]
+    if rng.random() < 0.4:
+        e = ["frac", e, mk_leaf([ch[0]])] if rng.random() < 0.5 else ["prod", e, mk_leaf([names[-1]])]
+    return e, "mwdistinct"
+
+
+# --------------------------------------------------------------------------------------------- set-order sensitive shapes
+#
+# Expressions whose canonical form can only be right if NO step depends on the iteration order of a Python set:
+# sibling factors that differ only inside a multi-element set-valued field (Sum.ranges, interventions), same-named
+# counterfactual children with several subscripts each, 3-4 interventions / ranges.  Used by the fresh-interpreter
+# hash-seed batches of C11 (and in-process for idempotence / presentation invariance).
+
+SETORDER_FAMILIES = ("sum_ranges", "iv_sets", "twin_children", "many_ivs", "many_ranges", "mw_sum")
+
+
+def struct_setorder(rng: random.Random, n_names=5, family=None):
+    """(expression, label): a product (sometimes a ratio) of >= 3 sibling factors from one set-order sensitive family"""
+    family = family or rng.choice(SETORDER_FAMILIES)
+    n_names = max(n_names, 5)
+    names = list(range(n_names))
+    rng.shuffle(names)
+    a, b, c, d, x = names[:5]
+    pop = rng.choice([None, None, POPS[0]])
+
+    def subsets(pool, lo, hi):
+        out = []
+        for k in range(lo, hi + 1):
+            for _ in range(6):
+                r = tuple(sorted(rng.sample(pool, min(k, len(pool)))))
+                if r not in out:
+                    out.append(r)
+        rng.shuffle(out)
+        return out
+
+    if family == "sum_ranges":      # Sum[B,C](f) * Sum[B,D](f) * Sum[C,D](f): same summand, different multi-variable ranges
+        f = rng.choice([mk_leaf([a], [b, c, d], pop=pop), mk_prod([mk_leaf([a], [b, c]), mk_leaf([b], [d])]),
+                        ["frac", mk_leaf([a, b], [c, d]), mk_leaf([b], [c])], mk_leaf([a, b, c, d], [x], pop=pop)])
+        fs = [["sum", [plain(n) for n in r], f] for r in subsets([b, c, d, x], 2, 3)[:rng.choice([3, 3, 4])]]
+    elif family == "iv_sets":       # P[X,Z](Y) * P[X,W](Y) * P[W,Z](Y): same first child, different >= 2-element subscript sets
+        stars = lambda r: [[n, rng.choice(["m", "m", "p"])] for n in r]  # noqa: E731
+        fs = [mk_leaf([a], rng.choice([[], [b]]) if b not in r else [], pop=pop, ivs=stars(r))
+              for r in subsets([b, c, d, x], 2, 3)[:rng.choice([3, 3, 4])]]
+    elif family == "twin_children":  # P(Y@(X,Z), Y@(X,W), ...): same-named children, each with >= 2 subscripts
+        ws = subsets([b, c, d, x], 2, 3)[:rng.choice([2, 3, 3])]
+        kids = [cfv(a, [[n, rng.choice(["m", "p"])] for n in r], rng.choice(["n", "n", "m"])) for r in ws]
+        rng.shuffle(kids)
+        leaf = mk_leaf(kids, pop=pop)
+        kids2 = list(kids)
+        rng.shuffle(kids2)
+        fs = [leaf, mk_leaf(kids2[:-1] or kids2, pop=pop), mk_leaf([a], ivs=[[b, "m"], [c, "m"]])]
+    elif family == "many_ivs":      # 3-4 interventions with mixed stars, siblings differing in one star / one name
+        base = [[n, rng.choice(["m", "p"])] for n in [b, c, d, x][:rng.choice([3, 4])]]
+        fs = [mk_leaf([a], pop=pop, ivs=base)]
+        for _ in range(rng.choice([2, 3])):
+            v = [list(i) for i in base]
+            k = rng.randrange(len(v))
+            if rng.random() < 0.6:
+                v[k][1] = "p" if v[k][1] == "m" else "m"
+            else:
+                v.pop(k)
+            fs.append(mk_leaf([a], pop=pop, ivs=v))
+    elif family == "many_ranges":   # sums with 3-4 ranges over sibling summands
+        r = [plain(n) for n in sorted([b, c, d, x][:rng.choice([3, 4])])]
+        fs = [["sum", r, mk_leaf([a], [b, c, d])], ["sum", r, mk_leaf([a], [b, c, x])], ["sum", r[:-1], mk_leaf([a], [b, c, d])],
+              ["sum", r[1:], mk_leaf([a], [b, c, d])]][:rng.choice([3, 4])]
+    else:                           # sums over multi-world joints (the shape of seed C11c)
+        fs = [struct_mw_sum(rng, n_names, wrap="none", pop=pop)[0] for _ in range(3)]
+    rng.shuffle(fs)
+    e = ["prod"] + _nest(rng, fs)
+    k = rng.random()
+    if k < 0.2:
+        e = ["frac", e, rng.choice(fs)]
+    elif k < 0.3:
+        e = ["sum", [plain(x), plain(d)], e]
+    return e, f"setorder:{family}"
+
+
+# --------------------------------------------------------------------------------------------- wide leaves, ordering shapes
+#
+# The type-directed generator caps a WellScoped leaf at 3 children, 2 parents, 2 interventions and the pool at 5 names; an
+# ordering is always a duplicate-free list of PLAIN variables covering every name.  New streams (the distribution of the
+# generators above is unchanged): wide leaves, and the other admissible shapes of canonicalize's `ordering` argument.
+
+def wide_leaf(rng: random.Random, n_names=8, pop=None, joint=False):
+    """a WellScoped single-world leaf with 4-6 children and/or 3-4 parents and/or 3-4 interventions (mixed stars)"""
+    names = list(range(n_names))
+    rng.shuffle(names)
+    shape = rng.choice(["children", "parents", "ivs", "all"])
+    k = rng.choice([4, 5, 6]) if shape in ("children", "all") else rng.choice([1, 2, 3])
+    m = 0 if joint else (rng.choice([3, 4]) if shape in ("parents", "all") else rng.choice([0, 1]))
+    w = rng.choice([3, 4]) if shape in ("ivs", "all") else rng.choice([0, 0, 1])
+    k = min(k, n_names - 1)
+    m = min(m, n_names - k)
+    w = min(w, n_names - k - m)
+    ch, pa, sub = names[:k], names[k:k + m], names[k + m:k + m + w]
+    ivs = [[x, rng.choice(["m", "m", "p"])] for x in sub]
+    mark = lambda: "m" if rng.random() < 0.12 else "n"  # noqa: E731
+    children = [cfv(x, ivs, mark()) for x in ch]
+    parents = [cfv(x, ivs, mark()) for x in pa]
+    rng.shuffle(children)
+    rng.shuffle(parents)
+    return mk_leaf(children, parents, pop=pop)
+
+
+def struct_wide_expr(rng: random.Random, n_names=None):
+    """(expression, label): wide leaves under Sums in every range mode, in products / fractions, conditional"""
+    n_names = n_names or rng.choice([6, 7, 8, 9])
+    for _ in range(20):
+        pop = rng.choice([None, None, POPS[0]])
+        k = rng.random()
+        if k < 0.45:
+            leaf = wide_leaf(rng, n_names, pop=pop, joint=True)
+            ch = [int(v[1]) for v in _leaf_parts(leaf)[0]]
+            others = [n for n in range(n_names) if n not in _leaf_all_names(leaf)] or [n_names]
+            mode = rng.choice(SUM_MODES)
+            if len(ch) < 2 and mode in ("subset", "partial"):
+                mode = "equal"
+            if mode == "equal":
+                r = list(ch)
+            elif mode == "superset":
+                r = list(ch) + others[:1]
+            elif mode == "subset":
+                r = rng.sample(ch, rng.randint(1, len(ch) - 1))
+            elif mode == "partial":
+                r = rng.sample(ch, rng.randint(1, len(ch) - 1)) + others[:1]
+            else:
+                r = others[:rng.choice([1, 2])]
+            if len(r) > 4:
+                r = r[:4] if mode != "equal" else r
+            e = ["sum", [plain(n) for n in sorted(set(r))], leaf]
+            w = rng.random()
+            if w < 0.25:
+                e = ["prod", e, wide_leaf(rng, n_names, pop=pop)]
+            elif w < 0.45:
+                e = ["frac", e, mk_leaf([ch[0]], pop=pop)]
+            lab = f"wide:sum:{mode}"
+        elif k < 0.75:
+            fs = [wide_leaf(rng, n_names, pop=rng.choice([None, pop])) for _ in range(rng.choice([2, 2, 3]))]
+            e = rng.choice([["prod"] + fs, ["frac", fs[0], fs[1]], ["frac", ["prod"] + fs, fs[0]]])
+            lab = "wide:prod"
+        else:
+            leaf = wide_leaf(rng, n_names, pop=pop)
+            pa = [int(v[1]) for v in _leaf_parts(leaf)[1]]
+            ch = [int(v[1]) for v in _leaf_parts(leaf)[0]]
+            r = (rng.sample(pa, rng.randint(1, len(pa))) if pa and rng.random() < 0.6 else rng.sample(ch, 1))
+            e = ["sum", [plain(n) for n in sorted(set(r))], ["prod", leaf, mk_leaf([r[0]])]]
+            lab = "wide:cond"
+        if well_scoped(e):
+            return e, lab
+    return wide_leaf(rng, n_names), "wide:leaf"
+
+
+def leaf_sizes(e):
+    """(max children, max parents, max interventions) over the leaves of `e` (generator-distribution tags)"""
+    c = p = i = 0
+    for t in subterms(e):
+        if isinstance(t, list) and t[0] in ("P", "PP"):
+            cs, ps = _leaf_parts(t)
+            c, p = max(c, len(cs)), max(p, len(ps))
+            i = max([i] + [len(v[4]) for v in list(cs) + list(ps)])
+    return c, p, i
+
+
+ORDERING_SHAPES = ("events_only", "cf_elems", "dups")
+
+
+def rand_ordering_shape(rng: random.Random, e, kind, n_names=None):
+    """an ordering (encoded variables) of one of the shapes that `rand_ordering` never produces; all cover the event names.
+    events_only: exactly the names in event position (plus a few unrelated ones) - names that occur only as subscripts or
+                 only as Sum ranges are omitted (the canonicaliser looks up event variables only);
+    cf_elems:    elements that are counterfactual / value-marked variables or Intervention objects (Sequence[str | Variable]
+                 admits them; canonical_expr_equal itself passes get_variables()); the level table is keyed by NAME;
+    dups:        repeated elements (ensure_ordering de-duplicates through a set; not an 'ordering' in the documented sense:
+                 callers treat it as malformed - 'raises or is right')"""
+    ev = sorted(event_names(e))
+    alln = sorted(set(all_names(e)) | {n for n in range(n_names or 0) if rng.random() < 0.3})
+    if kind == "events_only":
+        extra = [n for n in range((n_names or 0) + 2) if n not in alln and rng.random() < 0.3]
+        out = [plain(n) for n in ev + extra]
+    elif kind == "cf_elems":
+        out = []
+        for n in alln:
+            k = rng.random()
+            others = [m for m in alln if m != n]
+            if k < 0.3 and others:
+                out.append(cfv(n, [[rng.choice(others), rng.choice(["m", "p"])]], rng.choice(["n", "n", "m"])))
+            elif k < 0.45:
+                out.append(["v", n, rng.choice(["m", "p"]), "1", []])      # -X / +X as the DSL builds them
+            elif k < 0.55:
+                out.append(["v", n, rng.choice(["m", "p"]), "0", []])
+            else:
+                out.append(plain(n))
+            if k < 0.3 and rng.random() < 0.4:
+                out.append(plain(n))      # Y @ X next to Y: two elements with one name
+    else:
+        out = [plain(n) for n in alln]
+        for _ in range(rng.choice([1, 1, 2])):
+            if out:
+                out.insert(rng.randrange(len(out) + 1), list(rng.choice(out)))
+    rng.shuffle(out)
+    return out
